@@ -245,6 +245,34 @@ def special_specs():
     for outer in (('ifelse', 'n', 1), ('ifelif', 'n', 0), ('while', 'b', 0), ('for', 'n', 0), ('forix', 'u', 0)):
         for k in skel.LOOP_KINDS:
             out.append((outer, (k, 'u', 0)))
+    # branches with an empty body (the lowering then has two jumps / a jump and a label back to back), alone and inside a loop
+    for kind, nbr in (('if', 1), ('ifelse', 2), ('ifelif', 2), ('ifelifelse', 3)):
+        for e in range(nbr):
+            out.append(((kind, f'e{e}', 99),))
+            out.append((('while', 'b', 0), (kind, f'e{e}', 99)))
+    return out
+
+
+def sequence_programs(all_pairs=False, seed=0):
+    """two constructs one after the other at the same depth (loop bookkeeping of the first must not leak into the second)"""
+    leaves = list(skel.leaf_combos()) + [(k, 'u', 0) for k in skel.LOOP_KINDS]
+    pairs = [(a, b) for a in leaves for b in leaves]
+    if not all_pairs:
+        rng = random.Random(seed)
+        loops = [(a, b) for a, b in pairs if a[0] in skel.LOOP_KINDS and b[0] in skel.LOOP_KINDS]
+        rng.shuffle(loops)
+        rng.shuffle(pairs)
+        pairs = loops[:16] + pairs[:8]
+    out = {}
+    for a, b2 in pairs:
+        for scope in ('global', 'function'):
+            b = skel.Builder()
+            core = [b.log(), b.construct(a[0], a[1], [], 0), b.log(), b.construct(b2[0], b2[1], [], 0), b.log()]
+            if scope == 'function':
+                prog = [('func', 'ff', [], core + [('ret', 77)]), ('log', 900), ('setcall', 'rr', 'ff', []), ('logv', 'rr')]
+            else:
+                prog = core
+            out[f'seq_{skel.spec_name((a,))}_{skel.spec_name((b2,))}_{scope[0]}'] = (prog, b.arr)
     return out
 
 
@@ -261,6 +289,13 @@ def multi_function_programs():
                 c3 = b.construct(s3[0], s3[1], [('call', 'gg', [])], 0)
                 prog = [b.log(), c1, ('func', 'gg', [], fbody), c3, ('setcall', 'r1', 'gg', []), ('logv', 'r1')]
                 progs[f'{n1}_{n2}_{n3}'] = (prog, b.arr)
+    # a function defined inside an open global block, with its own loop and break/continue (label stack floor of the function)
+    for oname, outer in (('while', ('while', 'b', 0)), ('if', ('ifelse', 'n', 0)), ('for', ('for', 'c', 0))):
+        for iname, inner in (('whilebc', ('while', 'bc', 0)), ('forixb', ('forix', 'b', 0)), ('forc', ('for', 'c', 0))):
+            b = skel.Builder()
+            fbody = [b.log(), b.construct(inner[0], inner[1], [], 0), ('ret', 8)]
+            oc = b.construct(outer[0], outer[1], [('func', 'gg', [], fbody), ('setcall', 'r2', 'gg', [])], 0)
+            progs[f'defin_{oname}_{iname}'] = ([b.log(), oc, ('logv', 'r2'), b.log()], b.arr)
     # mutual calls with parameters and a loop in the callee
     b = skel.Builder()
     f1 = ('func', 'f1', ['a'], [('logv', 'a'), b.construct('while', 'b', [('setcall', 'x', 'f2', [3])], 0), ('logv', 'x'), ('ret', 1)])
@@ -302,6 +337,9 @@ def plan(tier, seed, workdir, prop='C01'):
             n += 1
     for name, (prog, narr) in multi_function_programs().items():
         add_shape(p, workdir, name, prog, narr, maxbits, timeout, 'multi')
+        n += 1
+    for name, (prog, narr) in sequence_programs(tier == 'thorough', seed).items():
+        add_shape(p, workdir, name, prog, narr, maxbits, timeout, 'sequence')
         n += 1
     # value family: the nine value types as conditions, truthiness decided by the real value_boolean
     vspecs = [s for s in list(skel.shape_specs(1)) + list(skel.shape_specs(2))
